@@ -2,7 +2,7 @@
 //!
 //! Every case runs in a child process (so that a hang or an abort is observable):
 //! a scripted decoder encodes the type of every frame in its iteration count
-//! (distinct powers of B), so that `total_iterations` decodes uniquely into the
+//! (distinct powers of B = 1024), so that `total_iterations` decodes uniquely into the
 //! number of counted frames of each type and every other statistic is predicted.
 
 use super::child::*;
@@ -18,8 +18,8 @@ use std::sync::atomic::{AtomicBool, AtomicUsize, Ordering};
 use std::sync::{Arc, Mutex};
 use std::time::{Duration, Instant};
 
-const B: u64 = 4096;
-const NTYPES: usize = 5;
+const B: u64 = 1024;
+const NTYPES: usize = 6;
 
 #[derive(Debug, Clone, Serialize, Deserialize, PartialEq)]
 pub enum Inject {
@@ -47,7 +47,7 @@ pub struct Case {
     pub inject: Inject,
 }
 
-const WEIGHTS: [[u32; NTYPES]; 6] = [[5, 2, 2, 1, 1], [1, 1, 1, 1, 1], [20, 1, 1, 1, 1], [0, 0, 1, 0, 1], [3, 3, 0, 1, 0], [2, 0, 3, 2, 0]];
+const WEIGHTS: [[u32; NTYPES]; 6] = [[5, 2, 2, 1, 1, 1], [1, 1, 1, 1, 1, 1], [12, 1, 1, 1, 1, 1], [0, 0, 1, 1, 0, 1], [3, 3, 0, 2, 1, 0], [2, 0, 3, 1, 2, 0]];
 
 fn base_strategy(tier: Tier) -> impl Strategy<Value = Case> {
     let ncpu: BoxedStrategy<usize> = match tier {
@@ -186,7 +186,8 @@ fn type_spec(t: usize, k: usize) -> (usize, bool) {
         0 => (0, true),
         1 => (0, false),
         2 => (1, false),
-        3 => (3, true),
+        3 => (2, false), // exactly the outer-code threshold
+        4 => (3, true),  // false decode
         _ => (k, false),
     }
 }
@@ -219,7 +220,7 @@ impl LdpcDecoder for SDec {
             *b ^= 1;
         }
         // parity bits flipped in some types: must not be counted
-        if t == 1 || t == 3 {
+        if t == 1 || t == 4 {
             let n = cw.len();
             cw[n - 1] ^= 1;
         }
@@ -257,9 +258,9 @@ fn check_stats(s: &Statistics, k: usize, bch: bool, max_err: u64, produced: &[u6
     e(x == 0, "iterations", "total_iterations does not decode into frame types")?;
     let k = k as u64;
     e(s.num_frames == n.iter().sum::<u64>(), "num_frames", "num_frames is not the number of counted frames")?;
-    e(s.ldpc.frame_errors == n[2] + n[3] + n[4], "frame_errors", "frame errors do not add up")?;
-    e(s.false_decodes == n[3], "false_decodes", "false decodes do not add up")?;
-    e(s.ldpc.bit_errors == n[2] + 3 * n[3] + k * n[4], "bit_errors", "bit errors (systematic bits only) do not add up")?;
+    e(s.ldpc.frame_errors == n[2] + n[3] + n[4] + n[5], "frame_errors", "frame errors do not add up")?;
+    e(s.false_decodes == n[4], "false_decodes", "false decodes do not add up")?;
+    e(s.ldpc.bit_errors == n[2] + 2 * n[3] + 3 * n[4] + k * n[5], "bit_errors", "bit errors (systematic bits only) do not add up")?;
     e(s.ldpc.correct_iterations == n[0] + n[1] * B, "correct_iterations", "correct-frame iterations do not add up")?;
     let close = |a: f64, b: f64| (a.is_nan() && b.is_nan()) || a == b || (a - b).abs() <= 1e-12 * a.abs().max(b.abs());
     e(close(s.ldpc.ber, s.ldpc.bit_errors as f64 / (k as f64 * s.num_frames as f64)), "ber", "BER is not bit errors / (k * frames)")?;
@@ -276,9 +277,9 @@ fn check_stats(s: &Statistics, k: usize, bch: bool, max_err: u64, produced: &[u6
         }
         (true, Some(b)) => {
             // outer-code threshold T = 2: frames with more than 2 bit errors are outer-code failures
-            e(b.frame_errors == n[3] + n[4], "bch.frame_errors", "outer-code frame errors do not add up")?;
-            e(b.bit_errors == 3 * n[3] + k * n[4], "bch.bit_errors", "outer-code bit errors do not add up")?;
-            e(b.correct_iterations == n[0] + n[1] * B + n[2] * B * B, "bch.correct_iterations", "outer-code correct iterations do not add up")?;
+            e(b.frame_errors == n[4] + n[5], "bch.frame_errors", "outer-code frame errors do not add up (frames with exactly 2 bit errors are correctable)")?;
+            e(b.bit_errors == 3 * n[4] + k * n[5], "bch.bit_errors", "outer-code bit errors do not add up")?;
+            e(b.correct_iterations == n[0] + n[1] * B + n[2] * B * B + n[3] * B * B * B, "bch.correct_iterations", "outer-code correct iterations do not add up")?;
             e(close(b.ber, b.bit_errors as f64 / (k as f64 * s.num_frames as f64)), "bch.ber", "outer-code BER")?;
             e(close(b.fer, b.frame_errors as f64 / s.num_frames as f64), "bch.fer", "outer-code FER")?;
             e(close(b.average_iterations_correct, b.correct_iterations as f64 / (s.num_frames - b.frame_errors) as f64), "bch.average_iterations_correct", "outer-code average iterations")?;
@@ -534,7 +535,7 @@ pub fn property() -> Property {
         subs: vec![
             Box::new(Sub {
                 name: "statistics",
-                rule: "each case in a child process pinned (sched_setaffinity) to 1..16 CPUs, so that the engine starts that many workers; BPSK, 40 dB, no puncturing: the hard decision of the LLRs is the transmitted word; a scripted decoder (per decoder instance and frame: type and delay from a hash of the case seed; delays none / yield / 0-200 us sleeps / stalled even workers) returns it with e_t systematic bits flipped (parity bits too in some types), verdict v_t and iteration count B^t (B = 4096) for five frame types, so total_iterations decodes uniquely into counted frames per type and every reported number is predicted exactly (frames, frame errors, false decodes, systematic bit errors, correct-frame iterations, outer-code accounting with threshold 2, BER/FER/averages as ratios, stop exactly at max_frame_errors in 1..=40, counted <= produced per type); report stream: same identities, frame counts non-decreasing per point, last report = returned entry, 'finished' exactly once and last; all decoders built are dropped when run() returns; with one worker the counted set is exactly the script prefix; 1-3 Eb/N0 points, with/without outer-code threshold; non-trivial = >= 2 workers and >= 3 frame types counted; inner = frames decoded",
+                rule: "each case in a child process pinned (sched_setaffinity) to 1..16 CPUs, so that the engine starts that many workers; BPSK, 40 dB, no puncturing: the hard decision of the LLRs is the transmitted word; a scripted decoder (per decoder instance and frame: type and delay from a hash of the case seed; delays none / yield / 0-200 us sleeps / stalled even workers) returns it with e_t systematic bits flipped (parity bits too in some types), verdict v_t and iteration count B^t (B = 1024) for six frame types (0, 0, 1, 2 = exactly the outer-code threshold, 3 with a success verdict = false decode, k bit errors), so total_iterations decodes uniquely into counted frames per type and every reported number is predicted exactly (frames, frame errors, false decodes, systematic bit errors, correct-frame iterations, outer-code accounting with threshold 2, BER/FER/averages as ratios, stop exactly at max_frame_errors in 1..=40, counted <= produced per type); report stream: same identities, frame counts non-decreasing per point, last report = returned entry, 'finished' exactly once and last; all decoders built are dropped when run() returns; with one worker the counted set is exactly the script prefix; 1-3 Eb/N0 points, with/without outer-code threshold; non-trivial = >= 2 workers and >= 3 frame types counted; inner = frames decoded",
                 cases: |t| t.pick(6_000, 150_000),
                 strategy,
                 check,
